@@ -1,6 +1,7 @@
 (* (S) The end-to-end checker, ROUND FOUR: the rules for the problem features the generator did not produce before
      1. job REPLACEMENT tasks and MIXED jobs (jobs.md "Replacement job", "Mixing job tasks")
      2. REQUIRED vehicle breaks (vehicles.md "breaks ... required"; tour-list.md: a stop without location)
+     3. VICINITY CLUSTERING (clustering.md: parking, commute, the commuting / parking parts of the statistic)
    Every definition of Spec/Valid.v keeps its meaning: the rules here are ADDED to its groups (A accounting = C02, F feasibility
    = C01, R reproducibility = C03) as further functions with their own violation constructors; the plugins append them to the
    lists they evaluate.  Written from the format documentation (docs/src/concepts/pragmatic), not from the solver code.
@@ -55,9 +56,25 @@ Definition split_repl (t : list act) : list act := flat_map split_act t.
    The extra data of a problem that Valid.pproblem has no field for (the existing records are left as they are): *)
 Record rbreak := mkRBreak { rq_earliest : Z; rq_latest : Z; rq_dur : Z;
                             rq_offset : bool (* earliest / latest are seconds after the tour's departure *) }.
+(* plan.clustering (vicinity; the routing profile of the vehicles, serving policy `original`): visiting = return?, parking time,
+   threshold duration / distance, the ids of the jobs that must not be clustered (filtering.excludeJobIds) *)
+Record ccfg := mkCCfg { cc_return : bool; cc_parking : Z; cc_thr_dur : Z; cc_thr_dist : Z; cc_excluded : list Z }.
 (* xp_rbreaks: (vehicle type id, shift index) -> the required breaks of that shift, document order *)
-Record xproblem := mkXProblem { xp_rbreaks : list (Z * nat * list rbreak) }.
-Definition X0 : xproblem := mkXProblem [].
+Record xproblem := mkXProblem { xp_rbreaks : list (Z * nat * list rbreak); xp_cluster : option ccfg }.
+Definition X0 : xproblem := mkXProblem [] None.
+(* the parts of a solution document Valid.ssolution has no field for: per tour the reported `parking` of every stop, the `commute`
+   of every flattened activity (None: no commute field; Some (forward, backward): the field, each direction optional), the
+   commuting / parking part of the tour statistic; and the two parts of the overall statistic *)
+Record commute := mkCommute { cm_loc : Z; cm_dist : Z; cm_t0 : Z; cm_t1 : Z }.
+Record xtour := mkXTour { xt_parking : list (option (Z * Z)); xt_commute : list (option (option commute * option commute));
+                          xt_commuting : Z; xt_parked : Z }.
+Record xsolution := mkXSolution { xs_tours : list xtour; xs_commuting : Z; xs_parked : Z }.
+Definition XS0 : xsolution := mkXSolution [] 0 0.
+Definition xt0 : xtour := mkXTour [] [] 0 0.
+Definition xt_of (XS : xsolution) (k : Z) : xtour := nth_z (xs_tours XS) k xt0.
+Definition some_b {A} (o : option A) : bool := match o with Some _ => true | None => false end.
+(* a tour with a clustered stop: some stop reports parking or some activity carries a commute field *)
+Definition is_cluster_tour (xt : xtour) : bool := existsb some_b (xt_parking xt) || existsb some_b (xt_commute xt).
 Definition TRANSIT : Z := -2.         (* ss_loc of a stop without location *)
 
 Definition rbreaks_of (X : xproblem) (t : stour) : list rbreak :=
@@ -310,24 +327,271 @@ Definition order_viol_rb (P : pproblem) (B : list (Z * Z)) (k : Z) (t : stour) :
   | Some r => if sorted_b (order_seq r) then [] else [FOrder k]
   end.
 
+(* ================================================================== 3. vicinity clustering *)
+(* clustering.md: close jobs are served from one stop; the stop reports `parking`, every clustered activity a `commute` with a
+   `forward` / `backward` part (location before / after the visit, distance, time) - an empty one for the job at the stop's own
+   location; "commute distance is not included into statistics"; the statistic has a commuting and a parking part.
+   Fragment: clustering.profile = the vehicles' routing profile without scale (a commute takes the matrix duration / distance),
+   serving policy `original`.  For a tour WITH a clustered stop (is_cluster_tour) the rules are evaluated on the document itself:
+     A  the per-job accounting of Valid.accounted_b as it is (clustered activities carry their own location) + AClusterMember
+     F  capacity per reload interval / further dimensions / skills / task order on the activities attributed by kind and location
+        (`light_match`), limits on the stop-to-stop distance and the tour duration, tour size with the clustered activities of a
+        stop counted as one, shift start / end, every service start inside a time window of a place used (FClusterWindow),
+        cluster members within the threshold of the stop's location (FClusterThreshold)
+     R  the driver's walk through every stop (parking, then activity by activity: forward commute from where he is, service,
+        backward commute; RParking / RCommute / RStopDeparture), the legs between consecutive stop locations (RStopArrival,
+        RDistance), the loads, and the statistic: distance / driving = the legs between stops, commuting / parking = the reported
+        commutes / parkings, serving / break = the reported activity lengths, waiting = the rest of the duration (the times are a
+        split), cost = fixed + distance*cd + duration*ct
+   Not replayed for such a tour: the arrival-by-arrival simulation of the time windows and the place tags. *)
+Definition items_of (xt : xtour) (t : stour) : list (Z * (fact * option (option commute * option commute))) :=
+  mapi (fun i a => (i, (a, nth_z (xt_commute xt) i None))) (flat_tour t).
+
+(* ---- A *)
+Definition clusterable (P : pproblem) (cfg : option ccfg) (a : fact) : bool :=
+  is_job_kind (fa_kind a) &&
+  match find_job P (fa_job a), cfg with
+  | Some job, Some c => (length (pj_tasks job) =? 1)%nat && negb (zmem (pj_id job) (cc_excluded c))
+  | _, _ => false
+  end.
+Definition member_viol (P : pproblem) (X : xproblem) (xt : xtour) (k : Z) (t : stour) : list violation :=
+  flat_map (fun it => if some_b (snd (snd it)) && negb (clusterable P (xp_cluster X) (fst (snd it))) then [AClusterMember k (fst it)] else [])
+           (items_of xt t).
+Definition member_viols (P : pproblem) (X : xproblem) (XS : xsolution) (S : ssolution) : list violation :=
+  concat (mapi (fun k t => member_viol P X (xt_of XS k) k t) (sl_tours S)).
+Definition ClusterMembersOk (P : pproblem) (X : xproblem) (xt : xtour) (t : stour) : Prop :=
+  forall it, In it (items_of xt t) -> snd (snd it) <> None -> clusterable P (xp_cluster X) (fst (snd it)) = true.
+
+(* ---- the activities of a tour attributed by kind and location only (no reported time enters): enough for loads, skills, order *)
+Definition light_match (P : pproblem) (sh : pshift) (a : fact) : option (pjob * ptask) :=
+  if fa_kind a =? 13 then (if fa_job a =? RELOAD_JOB then Some (reload_job sh, mkPTask 13 (sh_reloads sh) 0) else None)
+  else if fa_kind a =? 12 then (if fa_job a =? BREAK_JOB then Some (break_job sh a, mkPTask 12 [] 0) else None)
+  else match find_job P (fa_job a) with
+       | Some job => match find (fun tk => task_matches tk a) (pj_tasks job) with Some tk => Some (job, tk) | None => None end
+       | None => None
+       end.
+Fixpoint light_all (P : pproblem) (sh : pshift) (l : list fact) : option (list (fact * (pjob * ptask))) :=
+  match l with
+  | [] => Some []
+  | a :: r => match light_match P sh a, light_all P sh r with
+              | Some m, Some ms => Some ((a, m) :: ms)
+              | _, _ => None
+              end
+  end.
+Definition light_act (am : fact * (pjob * ptask)) : act :=
+  let '(a, (job, tk)) := am in
+  mkAct (fa_job a) (fa_loc a) (fa_end a - fa_start a) NEGT INF (demand_of job tk) (fa_arr a) (fa_end a).
+Record lrebuilt := mkLRebuilt { lr_vt : pvtype; lr_shift : pshift; lr_dep : fact; lr_jobs : list (fact * (pjob * ptask));
+                                lr_arr : option fact; lr_acts : list act }.
+Definition light_rebuild (P : pproblem) (t : stour) : option lrebuilt :=
+  match shift_of P t with
+  | None => None
+  | Some (vt, sh) =>
+    let has_end := match sh_end sh with Some _ => true | None => false end in
+    match split_tour has_end (flat_tour t) with
+    | None => None
+    | Some (d, js, e) =>
+      match light_all P sh js with
+      | None => None
+      | Some ms =>
+        let start := mkAct (-1) (fa_loc d) 0 (sh_earliest sh) (sh_latest sh) dzero (fa_start d) (fa_end d) in
+        let fin := match e with Some x => [mkAct (-1) (fa_loc x) 0 NEGT INF dzero (fa_arr x) (fa_end x)] | None => [] end in
+        Some (mkLRebuilt vt sh d ms e (start :: map light_act ms ++ fin))
+      end
+    end
+  end.
+
+(* ---- the legs between consecutive stops (each judged on the reported departure / distance of the stop before it) *)
+Fixpoint outer_from (P : pproblem) (k s ploc pdep pcum : Z) (stops : list sstop) : list violation :=
+  match stops with
+  | [] => []
+  | st :: r => (if ss_arr st =? pdep + pdur P ploc (ss_loc st) then [] else [RStopArrival k s])
+               ++ (if ss_dist st =? pcum + pdist P ploc (ss_loc st) then [] else [RDistance k s])
+               ++ outer_from P k (s + 1) (ss_loc st) (ss_dep st) (ss_dist st) r
+  end.
+Definition outer_viol (P : pproblem) (k : Z) (t : stour) : list violation :=
+  match to_stops t with
+  | [] => []
+  | st :: r => (if ss_dist st =? 0 then [] else [RDistance k 0]) ++ outer_from P k 1 (ss_loc st) (ss_dep st) (ss_dist st) r
+  end.
+Definition LegsReplayed (P : pproblem) (t : stour) : Prop :=
+  (forall st r, to_stops t = st :: r -> ss_dist st = 0)
+  /\ forall l1 a b l2, to_stops t = l1 ++ a :: b :: l2 ->
+       ss_arr b = ss_dep a + pdur P (ss_loc a) (ss_loc b) /\ ss_dist b = ss_dist a + pdist P (ss_loc a) (ss_loc b).
+Fixpoint stop_legs (m : Z -> Z -> Z) (ploc : Z) (stops : list sstop) : Z :=
+  match stops with [] => 0 | st :: r => m ploc (ss_loc st) + stop_legs m (ss_loc st) r end.
+Definition tour_stop_legs (m : Z -> Z -> Z) (t : stour) : Z :=
+  match to_stops t with [] => 0 | st :: r => stop_legs m (ss_loc st) r end.
+
+(* ---- the driver's walk through one stop: he stands at `loc`, free at `time` *)
+Definition fw_ok (P : pproblem) (loc time : Z) (a : fact) (c : commute) : bool :=
+  (cm_loc c =? loc) && (cm_t0 c =? time) && (cm_dist c =? pdist P loc (fa_loc a))
+  && (cm_t1 c - cm_t0 c =? pdur P loc (fa_loc a)) && (cm_t1 c <=? fa_start a).
+Definition bw_ok (P : pproblem) (a : fact) (c : commute) : bool :=
+  (cm_t0 c =? fa_end a) && (cm_dist c =? pdist P (fa_loc a) (cm_loc c)) && (cm_t1 c - cm_t0 c =? pdur P (fa_loc a) (cm_loc c)).
+Fixpoint walk (P : pproblem) (ret : bool) (k loc time : Z) (items : list (Z * (fact * option (option commute * option commute))))
+  : list violation * (Z * Z) :=
+  match items with
+  | [] => ([], (loc, time))
+  | (i, (a, oc)) :: r =>
+    let fw := match oc with Some (f, _) => f | None => None end in
+    let bw := match oc with Some (_, b) => b | None => None end in
+    let v1 := match fw with
+              | Some c => if fw_ok P loc time a c && (if ret then some_b bw else true) then [] else [RCommute k i]
+              | None => if ((fa_loc a =? loc) || (pdist P loc (fa_loc a) =? 0)) && (time <=? fa_start a) then [] else [RCommute k i]
+              end in
+    let v2 := match bw with Some c => if bw_ok P a c then [] else [RCommute k i] | None => [] end in
+    let next := match bw with Some c => (cm_loc c, cm_t1 c) | None => (fa_loc a, fa_end a) end in
+    let '(vs, fin) := walk P ret k (fst next) (snd next) r in
+    (v1 ++ v2 ++ vs, fin)
+  end.
+Definition stop_walk (P : pproblem) (cfg : option ccfg) (xt : xtour) (k : Z) (t : stour) (s : Z) (st : sstop) : list violation :=
+  let park := nth_z (xt_parking xt) s None in
+  let items := filter (fun it => fa_stop (fst (snd it)) =? s) (items_of xt t) in
+  (match park, cfg with
+   | Some (p0, p1), Some c => if (p0 =? ss_arr st) && (p1 - p0 =? cc_parking c) then [] else [RParking k s]
+   | Some _, None => [RParking k s]
+   | None, _ => []
+   end)
+  ++ (let '(vs, fin) := walk P (match cfg with Some c => cc_return c | None => false end) k (ss_loc st)
+                             (match park with Some (_, p1) => p1 | None => ss_arr st end) items in
+      vs ++ (if (fst fin =? ss_loc st) && (snd fin =? ss_dep st) then [] else [RStopDeparture k s])).
+
+(* ---- R for a tour with clustered stops *)
+Definition commute_time (oc : option (option commute * option commute)) : Z :=
+  match oc with
+  | Some (f, b) => (match f with Some c => cm_t1 c - cm_t0 c | None => 0 end) + (match b with Some c => cm_t1 c - cm_t0 c | None => 0 end)
+  | None => 0
+  end.
+Definition park_time (p : option (Z * Z)) : Z := match p with Some (a, b) => b - a | None => 0 end.
+Definition cluster_stat (P : pproblem) (vt : pvtype) (xt : xtour) (t : stour) : sstat * (Z * Z) :=
+  let l := flat_tour t in
+  let dist := tour_stop_legs (pdist P) t in
+  let drive := tour_stop_legs (pdur P) t in
+  let dur := ss_dep (last (to_stops t) (mkSStop 0 0 0 0 0 [])) - tour_dep l in       (* until the driver is back at the last stop *)
+  let serve := sumz (map (fun a => if is_job_kind (fa_kind a) || (fa_kind a =? 13) then fa_end a - fa_start a else 0) l) in
+  let brk := sumz (map (fun a => if fa_kind a =? 12 then fa_end a - fa_start a else 0) l) in
+  let comm := sumz (map commute_time (xt_commute xt)) in
+  let park := sumz (map park_time (xt_parking xt)) in
+  (mkSStat (vt_fixed vt + dist * vt_cd vt + dur * vt_ct vt) dist dur drive serve (dur - drive - serve - brk - comm - park) brk,
+   (comm, park)).
+Definition replay_tour_cl (P : pproblem) (X : xproblem) (xt : xtour) (k : Z) (t : stour) : list violation :=
+  match light_rebuild P t with
+  | None => [RNoReplay k]
+  | Some r =>
+    let has_end := match lr_arr r with Some _ => true | None => false end in
+    let facts := lr_dep r :: map fst (lr_jobs r) ++ (match lr_arr r with Some e => [e] | None => [] end) in
+    let '(st, (comm, park)) := cluster_stat P (lr_vt r) xt t in
+    concat (mapi (stop_walk P (xp_cluster X) xt k t) (to_stops t))
+    ++ outer_viol P k t
+    ++ concat (mapi (fun s stp => match last_index_of_stop s facts 0 None with
+                                  | None => [RStopDeparture k s]
+                                  | Some i => if ss_load stp =? nth_z (replay_loads_x has_end (lr_acts r)) i 0 then [] else [RLoad k s]
+                                  end) (to_stops t))
+    ++ stat_checks k st (to_stat t)
+    ++ (if xt_commuting xt =? comm then [] else [RStatCommuting k])
+    ++ (if xt_parked xt =? park then [] else [RStatParking k])
+  end.
+
+(* ---- F for a tour with clustered stops *)
+Definition window_ok (tk : ptask) (a : fact) : bool :=
+  existsb (fun p => (pl_loc p =? fa_loc a) && existsb (fun w => (fst w <=? fa_start a) && (fa_start a <=? snd w)) (pl_tws p)) (tk_places tk).
+Definition window_viol (k : Z) (r : lrebuilt) : list violation :=
+  concat (mapi (fun i am => if is_job_kind (fa_kind (fst am)) && negb (window_ok (snd (snd am)) (fst am)) then [FClusterWindow k (i + 1)] else [])
+               (lr_jobs r)).
+Definition WindowsKept (r : lrebuilt) : Prop :=
+  forall am, In am (lr_jobs r) -> is_job_kind (fa_kind (fst am)) = true -> window_ok (snd (snd am)) (fst am) = true.
+Definition near (P : pproblem) (c : ccfg) (centre loc : Z) : bool :=
+  (pdur P centre loc <=? cc_thr_dur c) && (pdist P centre loc <=? cc_thr_dist c)
+  && (pdur P loc centre <=? cc_thr_dur c) && (pdist P loc centre <=? cc_thr_dist c).
+Definition threshold_viol (P : pproblem) (X : xproblem) (xt : xtour) (k : Z) (t : stour) : list violation :=
+  match xp_cluster X with
+  | None => []
+  | Some c =>
+    flat_map (fun it => let a := fst (snd it) in
+                        let centre := ss_loc (nth_z (to_stops t) (fa_stop a) (mkSStop (fa_loc a) 0 0 0 0 [])) in
+                        if some_b (snd (snd it)) && negb (fa_loc a =? centre) && negb (near P c centre (fa_loc a))
+                        then [FClusterThreshold k (fst it)] else [])
+             (items_of xt t)
+  end.
+Definition WithinThreshold (P : pproblem) (c : ccfg) (xt : xtour) (t : stour) : Prop :=
+  forall it, In it (items_of xt t) -> snd (snd it) <> None ->
+    let a := fst (snd it) in
+    let centre := ss_loc (nth_z (to_stops t) (fa_stop a) (mkSStop (fa_loc a) 0 0 0 0 [])) in
+    fa_loc a <> centre -> near P c centre (fa_loc a) = true.
+(* the clustered activities of one stop count as one activity (vehicles.md, tourSize) *)
+Definition cluster_size (xt : xtour) (t : stour) : Z :=
+  let its := filter (fun it => is_mid_kind (fa_kind (fst (snd it)))) (items_of xt t) in
+  Z.of_nat (length (filter (fun it => negb (some_b (snd (snd it)))) its))
+  + Z.of_nat (length (nodup Z.eq_dec (map (fun it => fa_stop (fst (snd it))) (filter (fun it => some_b (snd (snd it))) its)))).
+Definition feasible_viol_cl (P : pproblem) (X : xproblem) (xt : xtour) (k : Z) (t : stour) : list violation :=
+  match light_rebuild P t with
+  | None => [FNoTour k]
+  | Some r =>
+    let vt := lr_vt r in let sh := lr_shift r in
+    let l := flat_tour t in
+    (match lr_arr r, sh_end sh with
+     | Some e, Some (_, latest) => if fa_arr e <=? latest then [] else [FInfeasible k]
+     | _, _ => []
+     end)
+    ++ (if ivl_load_feasible (vt_cap vt) (lr_acts r) then [] else [FCapacity k])
+    ++ flat_map (fun am => let '(job, _) := snd am in if skills_ok vt job then [] else [FSkills k (pj_id job)]) (lr_jobs r)
+    ++ (if le_opt (tour_stop_legs (pdist P) t) (vt_maxdist vt) then [] else [FMaxDistance k])
+    ++ (if le_opt (ss_dep (last (to_stops t) (mkSStop 0 0 0 0 0 [])) - tour_dep l) (vt_maxdur vt) then [] else [FMaxDuration k])
+    ++ (if le_opt (cluster_size xt t) (vt_toursize vt) then [] else [FTourSize k])
+    ++ (if (fa_loc (lr_dep r) =? sh_start sh) && (sh_earliest sh <=? fa_end (lr_dep r)) && (fa_end (lr_dep r) <=? sh_latest sh)
+        then [] else [FShiftStart k])
+    ++ (match lr_arr r, sh_end sh with
+        | Some e, Some (loc, _) => if fa_loc e =? loc then [] else [FEndLocation k]
+        | _, _ => []
+        end)
+    ++ window_viol k r
+    ++ threshold_viol P X xt k t
+  end.
+Definition dim_viol_cl (P : pproblem) (k : Z) (t : stour) (d : nat) : list violation * list violation :=
+  let dz := Z.of_nat d + 1 in
+  match light_rebuild (dim_problem d P) (dim_tour d t) with
+  | None => ([], [])
+  | Some r =>
+    let has_end := match lr_arr r with Some _ => true | None => false end in
+    let facts := lr_dep r :: map fst (lr_jobs r) ++ (match lr_arr r with Some e => [e] | None => [] end) in
+    ((if ivl_load_feasible (vt_cap (lr_vt r)) (lr_acts r) then [] else [FCapacityDim k dz]),
+     load_checks k dz (dim_tour d t) facts (replay_loads_x has_end (lr_acts r)))
+  end.
+Definition order_viol_cl (P : pproblem) (k : Z) (t : stour) : list violation :=
+  match light_rebuild (order_problem P) t with
+  | None => []
+  | Some r => if sorted_b (map (fun am => okey (tk_demand (snd (snd am)))) (filter (fun am => is_job_kind (fa_kind (fst am))) (lr_jobs r)))
+              then [] else [FOrder k]
+  end.
+
 (* ================================================================== the added groups *)
 (* A (C02): Valid.accounted_b on the solution without its required-break activities / transit stops, which are accounted for by
-   rbreak_viols; the rule for mixed jobs *)
-Definition accounted4 (X : xproblem) (P : pproblem) (S : ssolution) : list violation :=
-  accounted_b P (strip_sol X S) ++ rbreak_viols X S ++ mixed_viols P S.
-(* F (C01): for X0 the first line is Valid.feasible_viols and the second Valid.xfeasible_viols (Proofs/ValidXP.v) *)
-Definition feasible4 (X : xproblem) (P : pproblem) (S : ssolution) : list violation :=
-  concat (mapi (fun k t => feasible_viol_rb P (xbreaks X t) k (xstrip X t)) (sl_tours S))
+   rbreak_viols; the rule for mixed jobs; the rule for cluster members *)
+Definition accounted4 (X : xproblem) (XS : xsolution) (P : pproblem) (S : ssolution) : list violation :=
+  accounted_b P (strip_sol X S) ++ rbreak_viols X S ++ mixed_viols P S ++ member_viols P X XS S.
+(* F (C01): for X0 / XS0 the first line is Valid.feasible_viols and the second Valid.xfeasible_viols (Proofs/ValidXP.v) *)
+Definition feasible4 (X : xproblem) (XS : xsolution) (P : pproblem) (S : ssolution) : list violation :=
+  concat (mapi (fun k t => if is_cluster_tour (xt_of XS k) then feasible_viol_cl P X (xt_of XS k) k t
+                           else feasible_viol_rb P (xbreaks X t) k (xstrip X t)) (sl_tours S))
   ++ (let S' := strip_sol X S in
       compat_viols P S' ++ group_viols P S' ++ reach_viols P S'
-      ++ concat (mapi (fun k t => flat_map (fun d => fst (dim_tour_viol_rb P (xbreaks X t) k (xstrip X t) d)) (seq 0 (xdims P))) (sl_tours S))
-      ++ concat (mapi (fun k t => order_viol_rb P (xbreaks X t) k (xstrip X t)) (sl_tours S))
+      ++ concat (mapi (fun k t => flat_map (fun d => fst (if is_cluster_tour (xt_of XS k) then dim_viol_cl P k t d
+                                                          else dim_tour_viol_rb P (xbreaks X t) k (xstrip X t) d)) (seq 0 (xdims P))) (sl_tours S))
+      ++ concat (mapi (fun k t => if is_cluster_tour (xt_of XS k) then order_viol_cl P k t
+                                  else order_viol_rb P (xbreaks X t) k (xstrip X t)) (sl_tours S))
       ++ break_place_viols P S')
   ++ rb_missing_viols X S
   ++ concat (mapi (fun k t => if has_rb X t then reserved_viol P (xbreaks X t) k (xstrip X t) else []) (sl_tours S)).
 (* R (C03) *)
-Definition replay4 (X : xproblem) (P : pproblem) (S : ssolution) : list violation :=
-  concat (mapi (fun k t => replay_tour_rb P (xbreaks X t) (xbends X t) k (xstrip X t)) (sl_tours S)) ++ total_checks S
-  ++ concat (mapi (fun k t => flat_map (fun d => snd (dim_tour_viol_rb P (xbreaks X t) k (xstrip X t) d)) (seq 0 (xdims P))) (sl_tours S)).
-Definition valid4 (X : xproblem) (P : pproblem) (S : ssolution) : list violation :=
-  precond_viol P ++ accounted4 X P S ++ feasible4 X P S ++ replay4 X P S.
+Definition xtotal_checks (XS : xsolution) : list violation :=
+  (if xs_commuting XS =? sumz (map xt_commuting (xs_tours XS)) then [] else [RTotal 7])
+  ++ (if xs_parked XS =? sumz (map xt_parked (xs_tours XS)) then [] else [RTotal 8]).
+Definition replay4 (X : xproblem) (XS : xsolution) (P : pproblem) (S : ssolution) : list violation :=
+  concat (mapi (fun k t => if is_cluster_tour (xt_of XS k) then replay_tour_cl P X (xt_of XS k) k t
+                           else replay_tour_rb P (xbreaks X t) (xbends X t) k (xstrip X t)) (sl_tours S)) ++ total_checks S
+  ++ concat (mapi (fun k t => flat_map (fun d => snd (if is_cluster_tour (xt_of XS k) then dim_viol_cl P k t d
+                                                      else dim_tour_viol_rb P (xbreaks X t) k (xstrip X t) d)) (seq 0 (xdims P))) (sl_tours S))
+  ++ xtotal_checks XS.
+Definition valid4 (X : xproblem) (XS : xsolution) (P : pproblem) (S : ssolution) : list violation :=
+  precond_viol P ++ accounted4 X XS P S ++ feasible4 X XS P S ++ replay4 X XS P S.
